@@ -12,4 +12,5 @@ W=/verif/.work/setup.$$
 # warm the -race build cache used by the C16 race pass
 /verif/lib/build_root.sh "$W/race" streammc -race
 rm -rf "$W"
+/verif/lib/conformance.sh
 echo setup ok
